@@ -9,6 +9,7 @@ from vf.world.cmds import ROOT, CAPTURE
 from vf.world.proj import Project
 
 META = {
+    "solver_reasoned": 'existence bits and selectors (abstract job states, filter combination per shard).',
     "real": ["gwf.plugins.status.status/print_table/print_summary (bodies)", "gwf.plugins.run.run (body) incl. --dry-run", "gwf.scheduling.get_status_map/submit_workflow/schedule/should_run/"
              "_submit_dryrun/submit_backend", "gwf.filtering.StatusFilter/NameFilter/EndpointFilter/filter_generic", "gwf.backends.base.TrackingBackend.__init__/close",
              "gwf.core.FileSpecHashes.__init__/close", "gwf.plugins.run.clean_logs (guard)", "gwf.backends.slurm.* / sge / lsf / local ops (state queries, submission)"],
